@@ -85,7 +85,7 @@ def oracle(case):
     # Kendall tau (subsample to keep the O(n log n) call cheap but the band honest)
     m = min(n, 20000)
     tn = vs.tau_a(X[:m, 0], X[:m, 1])
-    band = vs.tau_band(m)
+    band = vs.tau_band_bernstein(m, ref.tau_theory(fam, theta))
     tt = ref.tau_theory(fam, theta)
     require(abs(tn - tt) <= band, '%s(theta=%r): Kendall tau of sample %.4f, theory %.4f (band %.4f)' % (fam, theta, tn, tt, band),
             tag='tau-theory')
